@@ -581,6 +581,7 @@ impl Generator {
             link.push_goto(column, ln)?;
         }
         if is_gosub {
+            link.push(Opcode::Return)?;
             link.push_symbol(ret_symbol);
         }
         Ok(col.start..sub_col.end)
